@@ -67,7 +67,18 @@ def gen_cases(ctx, n, maxdim):
                     vecs.append(v)
             c["lowrank"] = {"vals": [r.choice([0.25, 4.0, 9.0, 0.0625, 2.25]) for _ in range(rank)], "vecs": vecs,
                             "mu": [r.randint(-8, 8) / 8 for _ in range(dim)]}
-        if "lowrank" not in c and r.random() < 0.35 and dim >= 1:
+        if "lowrank" in c and r.random() < 0.35:
+            # a full low-rank update between two trajectories; half of them carry a non-finite
+            # eigenvalue and have to be rejected as a whole
+            lr0 = c["lowrank"]
+            vals2 = [r.choice([0.25, 4.0, 9.0, 0.0625, 2.25]) for _ in lr0["vals"]]
+            if vals2 and r.random() < 0.5:
+                vals2[r.randrange(len(vals2))] = None
+            c["ndraws"] = 2
+            c["retransform"] = {"stds": [r.choice([0.5, 1.0, 2.0, 1.5, 0.25, 3.0]) for _ in range(dim)],
+                                "mean": [r.randint(-8, 8) / 8 for _ in range(dim)],
+                                "lowrank": {"vals": vals2, "vecs": lr0["vecs"], "mu": [r.randint(-8, 8) / 8 for _ in range(dim)]}}
+        elif "lowrank" not in c and r.random() < 0.35 and dim >= 1:
             # the adaptation replaces the transformation between two trajectories: the second draw
             # starts from a state that was computed under the old one
             c["ndraws"] = 2
@@ -88,17 +99,26 @@ def gen_cases(ctx, n, maxdim):
     return cases
 
 
+def transform3(c, k):
+    """(stds, mean, low-rank part) in force during draw k.  A low-rank update whose spectral data is
+    not finite must be rejected as a whole: the old transformation stays in force."""
+    rt = c.get("retransform")
+    if k >= 1 and rt:
+        if "lowrank" in rt:
+            if any(v is None for v in rt["lowrank"]["vals"]):
+                return c["stds"], c["mean"], c.get("lowrank")
+            return rt["stds"], rt["mean"], rt["lowrank"]
+        return rt["stds"], rt["mean"], c.get("lowrank")
+    return c["stds"], c["mean"], c.get("lowrank")
+
+
 def transform_of(c, k):
-    """(stds, mean) in force during draw k"""
-    if k >= 1 and c.get("retransform"):
-        return c["retransform"]["stds"], c["retransform"]["mean"]
-    return c["stds"], c["mean"]
+    return transform3(c, k)[:2]
 
 
 def lowrank_expr(c, k=0):
     dim = c["dim"]
-    sig, mean = transform_of(c, k)
-    lr = c.get("lowrank")
+    sig, mean, lr = transform3(c, k)
     if lr:
         r_ = [math.sqrt(v) for v in lr["vals"]]
         return "(mk_lowrank %s %s %s %s %s %s true)" % (
@@ -240,14 +260,15 @@ def oracle_micro(c, d):
 def oracle_point(c, p, kdraw=0, init=None):
     """implementation-side consistency of one logged point: logdet, energy, index"""
     bad = []
-    logdet = -sum(math.log(s) for s in transform_of(c, kdraw)[0])
+    sig_, _, lr_ = transform3(c, kdraw)
+    logdet = -sum(math.log(s) for s in sig_)
     if init is not None and p.get("initial_energy") is not None:
         # energy errors of a trajectory are measured from the energy of its start
         if abs(b2f(p["initial_energy"]) - b2f(init["energy"])) > 1e-9 * (1 + abs(b2f(init["energy"]))):
             bad.append("the reference energy %r of the trajectory is not the energy %r of its start (draw %d)" % (
                 b2f(p["initial_energy"]), b2f(init["energy"]), kdraw))
-    if c.get("lowrank"):
-        logdet -= 0.5 * sum(math.log(v) for v in c["lowrank"]["vals"])
+    if lr_:
+        logdet -= 0.5 * sum(math.log(v) for v in lr_["vals"])
     if abs(b2f(p["logdet"]) - logdet) > 1e-9 * (1 + abs(logdet)):
         bad.append("logdet %r differs from sum ln(1/sigma) - 1/2 sum ln(lambda) = %r" % (b2f(p["logdet"]), logdet))
     if c["kind"] != "microcanonical":
